@@ -280,9 +280,7 @@ fn vk_ratio_to_float_k_f32_u32_u8() {
 #[cfg_attr(kani, kani::stub(<&IBig as core::ops::Shl<usize>>::shl, vk_rf_stub_shl_ibig_ref))]
 #[cfg_attr(not(kani), test)]
 fn vk_ratio_to_float_k_probe_u16() {
-    let n: u16 = any();
-    let d: u8 = any();
-    assume(d < 16);
-    vk_rf_check32(VkRfMode::Main, false, n as u64, 0, d as u16, 0);
+    let n: u32 = any();
+    vk_rf_check32(VkRfMode::Main, false, n as u64, 0, 7, 0);
     cover();
 }
